@@ -3,7 +3,7 @@ from cuqi.density import Density
 import numpy as np
 import inspect
 from numbers import Number
-from scipy.sparse import issparse, diags
+from scipy.sparse import issparse, diags, csc_matrix
 from scipy.sparse import linalg as spslinalg
 from dataclasses import dataclass
 from abc import ABCMeta
@@ -144,8 +144,15 @@ def sparse_cholesky(A):
 
 
     # check the matrix A is positive definite
-    if (LU.perm_r == np.arange(A.shape[0])).all() and (LU.U.diagonal() > 0).all(): 
-        return (LU.L @ (diags(LU.U.diagonal()**0.5))).T
+    n = A.shape[0]
+    if (LU.perm_r == LU.perm_c).all() and (LU.U.diagonal() > 0).all():
+        U = (LU.L @ (diags(LU.U.diagonal()**0.5))).T
+        if not (LU.perm_r == np.arange(n)).all():
+            # Also with permc_spec='natural' SuperLU post-orders the elimination tree (a symmetric permutation).
+            # This is an equivalent reordering: the factor of A itself is the permuted factor and is still triangular.
+            P = csc_matrix((np.ones(n), (LU.perm_r, np.arange(n))), shape=(n, n))
+            U = P.T @ U @ P
+        return U
     else:
         raise TypeError('The matrix is not positive semi-definite')
 
